@@ -11,7 +11,7 @@ import (
 // local / global / list element / object field).
 
 var (
-	intVals   = []int64{0, 1, -1, 2, 3, 7, 62, 63, 64, math.MaxInt64, math.MinInt64}
+	intVals   = []int64{0, 1, -1, 2, 3, 7, 62, 63, 64, 256, 257, 4294967297, math.MaxInt64, math.MinInt64} // (256, 257, 2^32+1: shift counts that look small once narrowed to 8 or 32 bits)
 	floatVals = []float64{0, 1.5, -2, 3, 1e308, 0.1, math.Inf(1), math.Inf(-1), math.NaN()}
 	boolVals  = []bool{false, true}
 	strVals   = []string{"", "a", "ab", "é"}
